@@ -10,8 +10,12 @@
                                 snake-casing; also `$query`/`$_query` then)
     trigQueryClobber    C03-F1  `query` and `_query` are both parameters: the renamed local `_query`
                                 rebinds the parameter before the dict literal is evaluated
-    trigShadow          C03-F6  a parameter shadows a module-level callable the body calls before it
-                                sends (`gql`, the serialize function of a custom scalar used at top level)
+    trigShadow          C03-F6  a parameter (or the method local `query`) shadows a module-level callable the
+                                body calls before it sends (`gql`, the serialize function of a custom scalar
+                                used at top level)
+    trigMangled         C03-F8  a variable's Python name is subject to private-name mangling (`$__x` without
+                                snake-casing): the parameter is compiled as `_Client__x`, the keyword the
+                                signature shows does not bind it
     trigSerializeNullable  C03-F5 = C07-F1  a nullable top-level variable of a custom scalar with
                                 `serialize`: `serialize(x)` is unconditional (None, UNSET)
     trigSerializeList   C07-F2 (= C03-F7)  a list-typed top-level variable of such a scalar:
@@ -20,6 +24,7 @@
   Core Lean only.
 -/
 import AriadneModel.Model.ClientMethod
+import AriadneModel.Spec.PyCall
 
 namespace Ariadne.ArgFindings
 open Ariadne Ariadne.Scalars Ariadne.Arguments Ariadne.ClientMethod
@@ -48,8 +53,14 @@ def serializedBase (env : Env) (t : Gql.TypeRef) : Option String :=
 /-- the serialize functions the dict literal of the method calls -/
 def serializeFns (env : Env) (defs : List VarDef) : List String := defs.filterMap (fun d => serializedBase env d.type)
 
+/-- the name of the method local that holds the operation string (`get_variable_names`) -/
+def queryLocal (snake : Bool) (defs : List VarDef) : String := rename (selfName :: pyNames snake defs) "query"
+
 def trigShadow (env : Env) (defs : List VarDef) : Bool :=
-  (pyNames env.snake defs).any (fun p => p == "gql" || (serializeFns env defs).contains p)
+  (pyNames env.snake defs).any (fun p => p == "gql" || (serializeFns env defs).contains p) ||
+  (serializeFns env defs).contains (queryLocal env.snake defs)      -- `query = gql(…)` rebinds a serialize function called `query`
+
+def trigMangled (snake : Bool) (defs : List VarDef) : Bool := (pyNames snake defs).any PyCall.isMangled
 
 def isNonNull : Gql.TypeRef → Bool
   | .nonNull _ => true
@@ -68,7 +79,7 @@ def trigSerializeList (env : Env) (defs : List VarDef) : Bool :=
 
 def anyTrigger (env : Env) (defs : List VarDef) : Bool :=
   trigSelf env.snake defs || trigKwargs env.snake defs || trigMerge env.snake defs ||
-  trigQueryClobber env.snake defs || trigShadow env defs ||
+  trigQueryClobber env.snake defs || trigShadow env defs || trigMangled env.snake defs ||
   trigSerializeNullable env defs || trigSerializeList env defs
 
 /-- C07-F3: the deprecated `import` key together with a dotted name: the emitted
